@@ -166,7 +166,7 @@ class GetCacheChunk(Base):
     def __init__(self, **kw):
         super().__init__(**kw)
         self.callees = {"HTTPFile.download_range": DownloadRange()}
-        self.loops = {0: LoopSpec(inv=self.evict_inv)}
+        self.loops = {"kk in self.cache.keys()": LoopSpec(inv=self.evict_inv)}
 
     def inputs(self, ctx):
         return {"self": mk_self(ctx), "index": ctx.int("index", inp=True)}
@@ -224,7 +224,7 @@ class ReadRangeCached(Base):
     def __init__(self, **kw):
         super().__init__(**kw)
         self.callees = {"HTTPFile.get_cache_chunk": GetCacheChunk()}
-        self.loops = {0: LoopSpec(inv=self.inv, havoc=self.loop_havoc,
+        self.loops = {"chunk_index in range(chunk_start, chunk_stop)": LoopSpec(inv=self.inv, havoc=self.loop_havoc,
                                   modifies=lambda ctx, v: [v.self])}
 
     def inputs(self, ctx):
